@@ -432,3 +432,48 @@ pub open spec fn resolved_seq(s: SS, q: Seq<Unifiable>) -> Seq<Unifiable> {
 pub open spec fn join_pre(s: SS, ts: Seq<Unifiable>) -> bool {
     forall|i: int| 0 <= i < ts.len() ==> walk_pre(s, #[trigger] ts[i], true)
 }
+
+// the terms evaluate_join collects before it resolves them
+pub open spec fn raw_arg(s: SS, t: Unifiable) -> Seq<Unifiable> {
+    match ground_of(s, t) {
+        Some(g) => if g is SLinkedList { thru_first_val(s, g, true) } else { seq![g] },
+        None => seq![t],
+    }
+}
+pub open spec fn raw_terms(s: SS, ts: Seq<Unifiable>, n: int) -> Seq<Unifiable>
+    decreases n,
+{
+    if n <= 0 { Seq::empty() } else { raw_terms(s, ts, n - 1) + raw_arg(s, ts[n - 1]) }
+}
+
+// resolving the collected terms gives the terms of the statement
+pub proof fn lemma_join_terms(s: SS, ts: Seq<Unifiable>, n: int)
+    requires acyclic(s), 0 <= n <= ts.len(),
+    ensures join_terms(s, ts, n) == resolved_seq(s, raw_terms(s, ts, n)),
+    decreases n,
+{
+    if n > 0 {
+        lemma_join_terms(s, ts, n - 1);
+        let t = ts[n - 1];
+        let a = raw_terms(s, ts, n - 1);
+        let b = raw_arg(s, t);
+        assert(resolved_seq(s, a + b) =~= resolved_seq(s, a) + resolved_seq(s, b));
+        match ground_of(s, t) {
+            Some(g) => {
+                if g is SLinkedList { }
+                else {
+                    // a resolved, non-list value resolves to itself
+                    if t is LogicVar { lemma_ground_of_step(s, t); }
+                    assert(ground_of(s, g) == Some(g));
+                    assert(resolved_seq(s, seq![g]) =~= seq![g]);
+                }
+            },
+            None => {
+                assert(rv(s, t) == t);
+                assert(resolved_seq(s, seq![t]) =~= seq![t]);
+            },
+        }
+    } else {
+        assert(resolved_seq(s, Seq::<Unifiable>::empty()) =~= Seq::<Unifiable>::empty());
+    }
+}
